@@ -108,11 +108,24 @@ def load(tag, data, d):
     from curies import Converter, Record
 
     if tag == 0:
-        return Converter(qprops.mk_records(data), delimiter=d)
+        recs = qprops.mk_records(data)
+        # the signature is Iterable[Record]: a list, or an iterable that can be walked only once
+        return Converter(recs if len(data) % 3 == 0 else qprops.one_shot(recs, len(data)), delimiter=d)
     if tag == 7:
         return Converter(reused_records(data)[0], delimiter=d)
     if tag == 1:
-        return Converter.from_extended_prefix_map([rec_to_dict(r) for r in data], delimiter=d)
+        # the documented inputs: an iterable of dictionaries or of Record objects -- a list, or a one-shot iterator / generator
+        k = len(data) % 4
+        dicts = [rec_to_dict(r) for r in data]
+        if k == 0:
+            arg = dicts
+        elif k == 1:
+            arg = iter(dicts)
+        elif k == 2:
+            arg = (Record(**x) for x in dicts)
+        else:
+            arg = [Record(**x) for x in dicts]
+        return Converter.from_extended_prefix_map(arg, delimiter=d)
     if tag == 2:
         return Converter.from_prefix_map(dict(map(tuple, data)), delimiter=d)
     if tag == 3:
